@@ -396,6 +396,30 @@ def random_paths(g, rng, n, max_len=600, terminal=None):
     return paths
 
 
+def prefix_to(g, node, _cache={}):
+    """Shortest path (edge indices) from an initial state to `node`."""
+    key = id(g)
+    if key not in _cache:
+        _cache.clear()
+        _cache[key] = _bfs_tree(g)[0]
+    return _prefix(g, _cache[key], node)
+
+
+def complete(g, node, terminal=None, _cache={}):
+    """Edges of a shortest path from `node` to a terminal state."""
+    key = (id(g), terminal)
+    if key not in _cache:
+        _cache.clear()
+        _cache[key] = _to_terminal(g, terminal)[0]
+    nxt = _cache[key]
+    out = []
+    while nxt[node] is not None and len(out) < 10000:
+        e = nxt[node]
+        out.append(e)
+        node = g.edges[e][1]
+    return out
+
+
 def coverage(g, paths):
     """(edges covered, edges total)."""
     cov = set()
